@@ -34,8 +34,8 @@ func resetEvent() Event { return elvcore.ResetEvent() }
 // features covered by spec and generator at this point of the growth
 var features = elvcore.CoreFeatures
 
-func runProgram(chunks []*elvcore.Node) ([]Event, error) {
-	evs, err := elvcore.RunProgram(chunks)
+func runProgram(chunks []*elvcore.Node, mods ...elvcore.Module) ([]Event, error) {
+	evs, err := elvcore.RunProgram(chunks, mods...)
 	if err != nil {
 		return nil, lib.Infra("%v", err)
 	}
@@ -43,8 +43,14 @@ func runProgram(chunks []*elvcore.Node) ([]Event, error) {
 }
 
 // directed parses the corpus programs with the real parser and lifts them to ASTs.
-func directed() ([][]*elvcore.Node, error) {
-	var out [][]*elvcore.Node
+type dirProg struct {
+	chunks []*elvcore.Node
+	mods   []elvcore.Module
+}
+
+// A corpus chunk of the form `#mod NAME: SOURCE` defines an in-memory module of the program.
+func directed() ([]dirProg, error) {
+	var out []dirProg
 	srcs := corpus
 	if p := os.Getenv("VERIF_C15_PROBE"); p != "" { // development: one program, one chunk per line
 		b, err := os.ReadFile(p)
@@ -55,7 +61,13 @@ func directed() ([][]*elvcore.Node, error) {
 	}
 	for _, prog := range srcs {
 		var chunks []*elvcore.Node
+		var mods []elvcore.Module
 		for _, src := range prog {
+			modName := ""
+			if strings.HasPrefix(src, "#mod ") {
+				i := strings.Index(src, ": ")
+				modName, src = src[5:i], src[i+2:]
+			}
 			tree, err := parse.Parse(parse.Source{Name: "[corpus]", Code: src}, parse.Config{})
 			if err != nil {
 				return nil, lib.Infra("corpus chunk does not parse: %q: %v", src, err)
@@ -64,9 +76,13 @@ func directed() ([][]*elvcore.Node, error) {
 			if err != nil {
 				return nil, lib.Infra("corpus chunk outside the AST schema: %q: %v", src, err)
 			}
+			if modName != "" {
+				mods = append(mods, elvcore.Module{Name: modName, Ast: n})
+				continue
+			}
 			chunks = append(chunks, n)
 		}
-		out = append(out, chunks)
+		out = append(out, dirProg{chunks, mods})
 	}
 	return out, nil
 }
@@ -125,6 +141,7 @@ func generated(c *lib.Ctx) error {
 		Ast *elvcore.Node `json:"ast"`
 		Oom bool          `json:"oom"`
 		Out []any         `json:"out"`
+		Byt []int         `json:"bytes"`
 		Exc any           `json:"exc"`
 	}
 	var cases []gcase
@@ -168,9 +185,12 @@ func generated(c *lib.Ctx) error {
 		if k.Out == nil {
 			k.Out = []any{}
 		}
-		if canon(k.Out) != canon(e.Out) || canon(k.Exc) != canon(e.Exc) {
-			c.Reject("elvcore-gen:"+e.Exc["c"].(string), fmt.Sprintf("program `%s`: reference semantics prescribes out=%s exc=%s; real Evaler gave out=%s exc=%s",
-				e.Src, canon(k.Out), canon(k.Exc), canon(e.Out), canon(e.Exc)), []Event{resetEvent(), e})
+		if k.Byt == nil {
+			k.Byt = []int{}
+		}
+		if canon(k.Out) != canon(e.Out) || canon(k.Exc) != canon(e.Exc) || canon(k.Byt) != canon(e.Byt) {
+			c.Reject("elvcore-gen:"+e.Exc["c"].(string), fmt.Sprintf("program `%s`: reference semantics prescribes out=%s bytes=%s exc=%s; real Evaler gave out=%s bytes=%s exc=%s",
+				e.Src, canon(k.Out), canon(k.Byt), canon(k.Exc), canon(e.Out), canon(e.Byt), canon(e.Exc)), []Event{resetEvent(), e})
 		}
 	})
 	for _, e := range errs {
@@ -212,7 +232,7 @@ func run(c *lib.Ctx) error {
 	errs := make([]error, nprog)
 	lib.Parallel(nprog, 8, func(i int) {
 		if i < ndir {
-			progs[i], errs[i] = runProgram(dir[i])
+			progs[i], errs[i] = runProgram(dir[i].chunks, dir[i].mods...)
 			return
 		}
 		g := elvcore.NewGen(c.Seed*1_000_003+int64(i), features)
@@ -221,7 +241,7 @@ func run(c *lib.Ctx) error {
 			depth = 4
 		}
 		chunks := g.Program(1+int(g.R.Intn(4)), 4, depth, 200*depth)
-		progs[i], errs[i] = runProgram(chunks)
+		progs[i], errs[i] = runProgram(chunks, g.Mods...)
 	})
 	for _, e := range errs {
 		if e != nil {
@@ -285,7 +305,7 @@ func run(c *lib.Ctx) error {
 		if len(b.Info) > 1 {
 			want, _ = b.Info[1].(string)
 		}
-		got, _ := json.Marshal(map[string]any{"out": e.Out, "exc": e.Exc})
+		got, _ := json.Marshal(map[string]any{"out": e.Out, "bytes": e.Byt, "exc": e.Exc})
 		what := fmt.Sprintf("chunk `%s`: real Evaler gave %s; reference semantics prescribes %s", e.Src, got, want)
 		kase := j.flat[j.off[gi] : b.Index+1]
 		if shrunk < 3 && os.Getenv("VERIF_C15_NOSHRINK") == "" {
@@ -295,8 +315,12 @@ func run(c *lib.Ctx) error {
 			for _, pe := range kase[1:] {
 				prog = append(prog, pe.Ast)
 			}
-			min := shrink(c, prog, 8)
-			if evs, err := elvcore.RunProgram(min); err == nil {
+			var mods []elvcore.Module
+			for _, m := range kase[0].Mods {
+				mods = append(mods, elvcore.Module{Name: m[0].(string), Ast: m[1].(*elvcore.Node)})
+			}
+			min := shrink(c, prog, mods, 8)
+			if evs, err := elvcore.RunProgram(min, mods...); err == nil {
 				var srcs []string
 				for _, pe := range evs[1:] {
 					srcs = append(srcs, pe.Src)
@@ -325,9 +349,10 @@ func replay(c *lib.Ctx) error {
 	}
 	var f struct {
 		Case []struct {
-			Ev  string          `json:"ev"`
-			Src string          `json:"src"`
-			Ast json.RawMessage `json:"ast"`
+			Ev   string              `json:"ev"`
+			Src  string              `json:"src"`
+			Ast  json.RawMessage     `json:"ast"`
+			Mods [][]json.RawMessage `json:"mods"`
 		} `json:"case"`
 	}
 	if err := json.Unmarshal(b, &f); err != nil {
@@ -336,17 +361,37 @@ func replay(c *lib.Ctx) error {
 	// re-run the recorded sources on a fresh Evaler; the ASTs are taken verbatim
 	ev := elv.New()
 	type rawEvent struct {
-		Ev  string          `json:"ev"`
-		Ast json.RawMessage `json:"ast"`
-		Out []any           `json:"out"`
-		Exc elvcore.J       `json:"exc"`
-		Src string          `json:"src"`
+		Ev   string              `json:"ev"`
+		Ast  json.RawMessage     `json:"ast"`
+		Out  []any               `json:"out"`
+		Byt  []int               `json:"bytes"`
+		Exc  elvcore.J           `json:"exc"`
+		Src  string              `json:"src"`
+		Mods [][]json.RawMessage `json:"mods"`
 	}
 	var evs []rawEvent
 	for _, e := range f.Case {
 		if e.Ev == "reset" {
-			ev = elv.New()
-			evs = append(evs, rawEvent{Ev: "reset", Ast: e.Ast, Out: []any{}, Exc: elvcore.J{"c": "ok"}})
+			var mods []elvcore.Module
+			for _, m := range e.Mods {
+				var name string
+				if len(m) != 2 || json.Unmarshal(m[0], &name) != nil {
+					return lib.Infra("replay: bad module entry")
+				}
+				ast, err := elvcore.FromJSON(m[1])
+				if err != nil {
+					return lib.Infra("replay: %v", err)
+				}
+				mods = append(mods, elvcore.Module{Name: name, Ast: ast})
+			}
+			var err error
+			if ev, err = elvcore.NewEvaler(mods); err != nil {
+				return lib.Infra("%v", err)
+			}
+			if e.Mods == nil {
+				e.Mods = [][]json.RawMessage{}
+			}
+			evs = append(evs, rawEvent{Ev: "reset", Ast: e.Ast, Out: []any{}, Byt: []int{}, Exc: elvcore.J{"c": "ok"}, Mods: e.Mods})
 			continue
 		}
 		o := elv.RunCtx(ev, e.Src, nil, 20*time.Second)
@@ -354,7 +399,7 @@ func replay(c *lib.Ctx) error {
 			return lib.Infra("replay: evaluation hung or panicked: %s", e.Src)
 		}
 		cause, _ := elvcore.ClassifyErr(o.Err)
-		evs = append(evs, rawEvent{Ev: "chunk", Ast: e.Ast, Out: elvcore.ProjectValues(o.Values), Exc: cause, Src: e.Src})
+		evs = append(evs, rawEvent{Ev: "chunk", Ast: e.Ast, Out: elvcore.ProjectValues(o.Values), Byt: elvcore.BytesJSON(o.Bytes), Exc: cause, Src: e.Src, Mods: [][]json.RawMessage{}})
 	}
 	bad, err := lib.JudgeGroups(c, "TraceElvCore(replay)", c.SpecDir("ElvCore"), "TraceElvCore", [][]rawEvent{evs}, 1, 5*time.Minute)
 	if err != nil {
